@@ -2,7 +2,7 @@
    RunActionWithTimeoutAndCancelStore and RunActionWithTimeoutAndContext.  Same method as ProofsR.v. *)
 From Coq Require Import List ZArith Bool Arith Lia.
 Import ListNotations.
-From GU Require Import C12.Conc C12.MC C12.Model C12.ProofsR.
+From GU Require Import C12.Conc C12.MC C12.Facts C12.Gen C12.Model C12.ProofsR.
 
 Definition started (s : xstate) : bool := match x_act s with None => false | _ => true end.
 
@@ -36,27 +36,29 @@ Definition x_safe (c : xcfg) (s : xstate) : bool :=
   | _ => true
   end.
 
-Definition x_okR (c : xcfg) (R : list xstate) : bool :=
-  closed (x_step c) xstate_eqb xlabels R && mem xstate_eqb (x_init c) R && forallb (x_safe c) R
-  && (if x_wf c then progress_ok (x_step c) xlabels x_is_done (x_G c) R else true)
-  && variant_ok (x_step c) xlabels x_rank R.
+Definition x_okR (f : facts) (c : xcfg) (R : list xstate) : bool :=
+  closed (x_step f c) xstate_eqb xlabels R && mem xstate_eqb (x_init c) R && forallb (x_safe c) R
+  && (if x_wf c then progress_ok (x_step f c) xlabels x_is_done (x_G c) R else true)
+  && variant_ok (x_step f c) xlabels (x_rank f) R.
 
-Lemma x_ok_all : forall c, x_okR c (x_R c) = true.
+(* THE proof obligation that depends on the generated facts (branch statements, registrations, deferred calls, entry check,
+   channel capacity): recomputed for all 768 scenario classes whenever Gen.v changes *)
+Lemma x_ok_all : forall c, x_okR gen_facts c (x_R gen_facts c) = true.
 Proof. intros [[] [[] [] []] [] [[]|] []]; vm_compute; reflexivity. Qed.
 
-Lemma x_okR_parts c R : x_okR c R = true ->
-  closed (x_step c) xstate_eqb xlabels R = true /\ mem xstate_eqb (x_init c) R = true
+Lemma x_okR_parts f c R : x_okR f c R = true ->
+  closed (x_step f c) xstate_eqb xlabels R = true /\ mem xstate_eqb (x_init c) R = true
   /\ forallb (x_safe c) R = true
-  /\ (x_wf c = true -> progress_ok (x_step c) xlabels x_is_done (x_G c) R = true)
-  /\ variant_ok (x_step c) xlabels x_rank R = true.
+  /\ (x_wf c = true -> progress_ok (x_step f c) xlabels x_is_done (x_G c) R = true)
+  /\ variant_ok (x_step f c) xlabels (x_rank f) R = true.
 Proof. unfold x_okR. apply and5_parts. Qed.
 
-Definition x_ok_parts c := x_okR_parts c (x_R c) (x_ok_all c).
+Definition x_ok_parts c := x_okR_parts gen_facts c (x_R gen_facts c) (x_ok_all c).
 
-Lemma x_safe_run c sched : x_safe c (run (x_step c) (x_init c) sched) = true.
+Lemma x_safe_run c sched : x_safe c (run (x_step gen_facts c) (x_init c) sched) = true.
 Proof.
   destruct (x_ok_parts c) as (Hc & H0 & Hs & _).
-  exact (safe_run (x_step c) xstate_eqb xstate_eqb_ok xlabels xlabels_all _ (x_safe c) (x_init c) Hc H0 Hs sched).
+  exact (safe_run (x_step gen_facts c) xstate_eqb xstate_eqb_ok xlabels xlabels_all _ (x_safe c) (x_init c) Hc H0 Hs sched).
 Qed.
 
 Ltac bool_hyps :=
@@ -67,7 +69,7 @@ Ltac bool_hyps :=
 
 (* the runner never returns while the action is still running; it runs no action only if the parent had ended *)
 Lemma x_waits_l : forall c sched r,
-  let s := run (x_step c) (x_init c) sched in
+  let s := run (x_step gen_facts c) (x_init c) sched in
   x_pc s = CDone r ->
   (x_act s = Some ASent /\ x_chan s = false) \/
   (x_act s = None /\ x_parent s <> PLive /\ r = kind_of (x_parent s)).
@@ -82,7 +84,7 @@ Qed.
 
 (* the value returned *)
 Lemma x_result_l : forall c sched r,
-  let s := run (x_step c) (x_init c) sched in
+  let s := run (x_step gen_facts c) (x_init c) sched in
   x_pc s = CDone r -> x_act s <> None ->
   r = res_of (a_out (x_a c)) \/
   (r = RTimeout /\ x_tctx s = PDead /\ (x_fired s = true \/ x_parent s = PDead)) \/
@@ -103,7 +105,7 @@ Qed.
 
 (* the action's context is cancelled when the runner returns *)
 Lemma x_signals_l : forall c sched r,
-  let s := run (x_step c) (x_init c) sched in
+  let s := run (x_step gen_facts c) (x_init c) sched in
   x_pc s = CDone r -> x_act s <> None ->
   (x_store c = false -> x_cret s = true) /\
   (r = RErr -> x_cret s = true) /\
@@ -124,7 +126,7 @@ Qed.
 (* scenario classes: an action that only returns when signalled HAS seen its signal, and the runner reports the end of
    the timeout context; an action that completes by itself early, with no event, gets its own result back *)
 Lemma x_classes_l : forall c sched r,
-  let s := run (x_step c) (x_init c) sched in
+  let s := run (x_step gen_facts c) (x_init c) sched in
   x_pc s = CDone r -> x_act s <> None ->
   (a_own (x_a c) = Never -> x_saw s = true /\ r <> res_of (a_out (x_a c))) /\
   (a_own (x_a c) = Late -> r <> res_of (a_out (x_a c))) /\
@@ -140,34 +142,34 @@ Proof.
 Qed.
 
 Lemma x_no_deadlock_l : forall c, x_wf c = true -> forall sched,
-  let s := run (x_step c) (x_init c) sched in
-  x_is_done s = false -> exists t, x_G c s t = true /\ x_step c s t <> None.
+  let s := run (x_step gen_facts c) (x_init c) sched in
+  x_is_done s = false -> exists t, x_G c s t = true /\ x_step gen_facts c s t <> None.
 Proof.
   intros c W sched s Hd. destruct (x_ok_parts c) as (Hc & H0 & _ & Hp & _).
-  exact (mc_no_deadlock (x_step c) xstate_eqb xstate_eqb_ok xlabels xlabels_all x_is_done (x_G c) _ (x_init c) Hc H0 (Hp W) sched Hd).
+  exact (mc_no_deadlock (x_step gen_facts c) xstate_eqb xstate_eqb_ok xlabels xlabels_all x_is_done (x_G c) _ (x_init c) Hc H0 (Hp W) sched Hd).
 Qed.
 
 Lemma x_terminates_l : forall c, x_wf c = true -> forall sigma,
-  weakly_fair (x_step c) (x_G c) (x_init c) sigma ->
-  exists k, x_is_done (state_at (x_step c) (x_init c) sigma k) = true.
+  weakly_fair (x_step gen_facts c) (x_G c) (x_init c) sigma ->
+  exists k, x_is_done (state_at (x_step gen_facts c) (x_init c) sigma k) = true.
 Proof.
   intros c W sigma Hf. destruct (x_ok_parts c) as (Hc & H0 & _ & Hp & Hv).
-  exact (mc_fair_terminates (x_step c) xstate_eqb xstate_eqb_ok xlabels xlabels_all x_is_done (x_G c) x_rank _ (x_init c)
+  exact (mc_fair_terminates (x_step gen_facts c) xstate_eqb xstate_eqb_ok xlabels xlabels_all x_is_done (x_G c) (x_rank gen_facts) _ (x_init c)
            Hc H0 (Hp W) Hv sigma Hf).
 Qed.
 
-Lemma x_steps_bounded_l : forall c sched, effective (x_step c) (x_init c) sched <= x_rank (x_init c).
+Lemma x_steps_bounded_l : forall c sched, effective (x_step gen_facts c) (x_init c) sched <= x_rank gen_facts (x_init c).
 Proof.
   intros c sched. destruct (x_ok_parts c) as (Hc & H0 & _ & _ & Hv).
-  exact (mc_steps_bounded (x_step c) xstate_eqb xstate_eqb_ok xlabels xlabels_all x_rank _ (x_init c) Hc H0 Hv sched).
+  exact (mc_steps_bounded (x_step gen_facts c) xstate_eqb xstate_eqb_ok xlabels xlabels_all (x_rank gen_facts) _ (x_init c) Hc H0 Hv sched).
 Qed.
 
 Lemma x_allowed_complete c sched :
-  (forall t, x_step c (run (x_step c) (x_init c) sched) t = None) ->
-  In (x_observe (run (x_step c) (x_init c) sched)) (x_allowed c).
+  (forall t, x_step gen_facts c (run (x_step gen_facts c) (x_init c) sched) t = None) ->
+  In (x_observe (run (x_step gen_facts c) (x_init c) sched)) (x_allowed gen_facts c).
 Proof.
   intros Hq. destruct (x_ok_parts c) as (Hc & H0 & _).
   unfold x_allowed. apply in_map. apply filter_In. split; [|now apply quiescentb_spec].
-  apply (closed_run (x_step c) xstate_eqb xstate_eqb_ok xlabels xlabels_all _ Hc sched (x_init c)).
+  apply (closed_run (x_step gen_facts c) xstate_eqb xstate_eqb_ok xlabels xlabels_all _ Hc sched (x_init c)).
   now apply (mem_In xstate_eqb xstate_eqb_ok).
 Qed.
